@@ -15,8 +15,10 @@ ID = "C19"
 LEVEL = "exploration"
 TECHNIQUE = "runtime monitoring: totality + per-line 'error owed' oracle over the items returned by the real lsp analysis"
 RULE = ("P-code from opv.gen_pcode.Gen over a drawn tag set / UOD command set, then a corruption layer: tag names in "
-        "Watch/Alarm/Simulate/Simulate off and instruction names replaced by wrong names of class {edit distance 1, far "
-        "(no similar name), length <= 2, empty}, conditions truncated (no value / no operator / no argument / no colon), "
+        "Watch/Alarm/Simulate/Simulate off and instruction names (including Watch/Alarm/Simulate/Simulate off themselves) "
+        "replaced by wrong names of class {edit distance 1, far (no similar name), length <= 2, empty, pure re-casing "
+        "(upper, lower, swapcase, title, capitalize, one or two single-letter case flips - same letters, so similar or "
+        "dissimilar to the defined name depending on how many letters change case)}, conditions truncated (no value / no operator / no argument / no colon), "
         "used tags or commands removed from the sets, indentation perturbed, garbage and unicode lines inserted; tag set "
         "and command set may be empty. distinct = (kinds of owed errors with their name class, shape hash of the text); "
         "non-trivial = at least one owed error of any class in the text")
@@ -31,13 +33,19 @@ ASSUMPTIONS = [
     "including Stop/Pause/Wait/Base..., may be missing from the set and is then an undefined command",
     "'on that line' = an ERROR item whose node is the node of that line (or whose range starts on that line); any ERROR "
     "item satisfies the oracle (an indentation error on the same line counts)",
+    "tag and command names are case sensitive (TagValueCollection.has / CommandCollection.has are dict-key lookups and "
+    "the engine resolves names the same way), so a re-cased name is an undefined name and is owed an ERROR like any other",
     "not judged: lines whose first non-blank character is not an ASCII letter or underscore (threshold/name ambiguity, "
     "unparsable lines), conditions with more than one operator run or an invalid operator run, incomplete Simulate "
     "assignments (the statement speaks of conditions)",
 ]
 REQUIRED = {"analyses": 1500, "owed_undefined_tag": 300, "owed_undefined_command": 300, "owed_incomplete_condition": 200,
             "owed_checked": 800, "wrong_name_distance1": 100, "wrong_name_far": 100, "wrong_name_short": 100,
-            "wrong_name_empty": 50, "empty_tag_set": 10, "empty_uod_command_set": 10}
+            "wrong_name_empty": 50, "empty_tag_set": 10, "empty_uod_command_set": 10,
+            "wrong_name_recase": 300, "recased_tag_names": 100, "recased_command_names": 300,
+            "recased_condition_instruction_names": 50,
+            "owed_undefined_tag_recased_dissimilar": 30, "owed_undefined_tag_recased_similar": 50,
+            "owed_undefined_command_recased_dissimilar": 100, "owed_undefined_command_recased_similar": 100}
 
 STRUCTURAL = ["Watch", "Alarm", "Block", "End block", "End blocks", "Mark", "Macro", "Call macro", "Batch", "Simulate",
               "Simulate off", "Notify"]
@@ -181,8 +189,12 @@ def check_case(case, res: Result):
         res.count("empty_tag_set")
     if not case["uod_cmds"]:
         res.count("empty_uod_command_set")
-    for _, kind, _ in owed:
+    for _, kind, nm in owed:
         res.count("owed_" + kind)
+        if kind != "incomplete_condition":
+            nc = name_class(nm, tag_names if kind == "undefined_tag" else cmd_names)
+            if nc.startswith("recased"):
+                res.count(f"owed_{kind}_{nc}")
     lines = text.splitlines()
     key = None
     if owed:
@@ -221,6 +233,8 @@ def name_class(nm, names):
         return "empty"
     if len(nm) <= 2:
         return "short"
+    if nm not in names and nm.lower() in {n.lower() for n in names}:
+        return "recased_similar" if similar(nm, names) > 0.7 else "recased_dissimilar"
     return "similar" if names and similar(nm, names) > 0.7 else "far"
 
 
@@ -236,9 +250,16 @@ def classify_raise(ex, tb, tag_names):
     if not isinstance(ex, ValueError) or not m or not tb or tb[-1].name != "get":
         return None
     t = m.group(1)
+    callers = [f.name for f in tb]
+    if t not in tag_names and t.lower() in {n.lower() for n in tag_names}:
+        # the undefined name is a pure re-casing of a defined tag name
+        if "analyze_condition" in callers[-2:]:
+            return "C19.recased_tag_raises_in_condition_check"
+        if "visit_SimulateNode" in callers[-2:]:
+            return "C19.recased_tag_raises_in_simulate_check"
+        return None
     if len(t) <= 2 or t in tag_names or not tag_names or similar(t, tag_names) > 0.7:
         return None
-    callers = [f.name for f in tb]
     if "analyze_condition" in callers[-2:]:
         return "C19.unknown_dissimilar_tag_raises_in_condition_check"
     if "visit_SimulateNode" in callers[-2:]:
@@ -250,6 +271,9 @@ def classify_missing(kind, nm, line, tag_names, cmd_names):
     """C19.simulate_off_unknown_dissimilar_tag_not_reported: 'Simulate off: <t>' with t longer than two characters, not
     in the non-empty tag set and without a similar name -> no item at all."""
     r = ref_line(line)
+    names = tag_names if kind == "undefined_tag" else cmd_names
+    if kind != "incomplete_condition" and nm not in names and nm.lower() in {n.lower() for n in names}:
+        return "C19.recased_tag_not_reported" if kind == "undefined_tag" else "C19.recased_command_not_reported"
     if kind == "undefined_tag" and r and r[0] == "instr" and r[1] == "Simulate off" and len(nm) > 2 and tag_names \
             and similar(nm, tag_names) <= 0.7:
         return "C19.simulate_off_unknown_dissimilar_tag_not_reported"
@@ -276,6 +300,8 @@ def wrong_name(rnd: random.Random, name: str, cls: str) -> str:
         if op == "case" and name[i].isalpha():
             return name[:i] + name[i].swapcase() + name[i + 1:]
         return name[:i] + rnd.choice(LETTERS[:52]) + name[i + 1:]
+    if cls == "recase":
+        return recase(rnd, name)
     if cls == "far":
         return rnd.choice(["Zzqqxv", "Qwertyuiop", "Kjhgfdsa mnb", "Vvvvvvvvvv", "Undefined thing 77", "Xyzzyx"]) + \
             rnd.choice(["", "", str(rnd.randint(0, 99))])
@@ -284,9 +310,33 @@ def wrong_name(rnd: random.Random, name: str, cls: str) -> str:
     return ""
 
 
+RECASE_OPS = ("upper", "lower", "swapcase", "title", "capitalize", "flip1", "flip2")
+
+
+def recase(rnd: random.Random, name: str) -> str:
+    """A pure re-casing of `name` (same letters, different case): names are case sensitive, so the result is a
+    different - normally undefined - name whose case-insensitive distance to a defined name is 0."""
+    ops = list(RECASE_OPS)
+    rnd.shuffle(ops)
+    for op in ops:
+        if op.startswith("flip"):
+            idx = [i for i, ch in enumerate(name) if ch.swapcase() != ch]
+            if not idx:
+                continue
+            new = list(name)
+            for i in rnd.sample(idx, min(len(idx), int(op[4:]))):
+                new[i] = new[i].swapcase()
+            new = "".join(new)
+        else:
+            new = getattr(name, op)()
+        if new != name:
+            return new
+    return name          # no cased letter in the name: nothing to re-case (the line stays as it is)
+
+
 def corrupt(rnd: random.Random, text: str, res: Result, allow_far: bool) -> str:
     out = []
-    classes = ["distance1", "short", "empty"] + (["far", "far"] if allow_far else [])
+    classes = ["distance1", "short", "empty", "recase"] + (["far", "far"] if allow_far else [])
     for ln in text.split("\n"):
         r = rnd.random()
         m = re.match(r"(\s*(?:\d+(?:\.\d+)?\s)?)([^:#]*)(:\s?)?(.*)$", ln, re.S)
@@ -298,10 +348,15 @@ def corrupt(rnd: random.Random, text: str, res: Result, allow_far: bool) -> str:
             cls = rnd.choice(classes)
             res.count("wrong_name_" + cls)
             if name == "Simulate off":
-                rest = wrong_name(rnd, rest.strip(), cls)
+                old = rest.strip()
+                new = rest = wrong_name(rnd, old, cls)
             else:
                 mm = re.match(r"([^<>=!]*)(.*)$", rest, re.S)
-                rest = wrong_name(rnd, mm.group(1).strip(), cls) + " " + mm.group(2)
+                old = mm.group(1).strip()
+                new = wrong_name(rnd, old, cls)
+                rest = new + " " + mm.group(2)
+            if cls == "recase" and new != old:
+                res.count("recased_tag_names")
             ln = pre + name + colon + rest
         elif name in ("Watch", "Alarm", "Simulate") and r < 0.45:
             mm = re.match(r"([^<>=!]*)([<>=!]*)(.*)$", rest, re.S)
@@ -310,10 +365,19 @@ def corrupt(rnd: random.Random, text: str, res: Result, allow_far: bool) -> str:
             ln = pre + name + {"novalue": colon + mm.group(1) + mm.group(2), "noop": colon + mm.group(1),
                                "noarg": colon, "nocolon": "", "notag": colon + mm.group(2) + mm.group(3),
                                "onlyop": colon + mm.group(2)}[how]
+        elif name in ("Watch", "Alarm", "Simulate", "Simulate off") and r < 0.50:
+            # the instruction name itself re-cased ("watch: X > 1", "SIMULATE OFF: X"): an undefined command
+            res.count("wrong_name_recase")
+            nm = recase(rnd, name)
+            res.count("recased_command_names")
+            res.count("recased_condition_instruction_names")
+            ln = pre + nm + colon + rest
         elif r < 0.12:
             cls = rnd.choice(classes)
             res.count("wrong_name_" + cls)
             nm = wrong_name(rnd, name, cls)
+            if cls == "recase" and nm != name:
+                res.count("recased_command_names")
             ln = pre + nm + colon + rest
         elif r < 0.16:
             ln = " " * rnd.randint(0, 9) + ln.lstrip(" ")
